@@ -777,6 +777,16 @@ func propC03(j *Job) {
 			j.Explore(fmt.Sprintf("AT/il%v/%s", il, what), ackTimerRaceScenario(il, what), Budget{D: map[bool]int{false: 2, true: 3}[j.Thorough()]}, nil)
 		}
 	}
+	for _, il := range []bool{false, true} {
+		for _, start := range []uint32{0, 7, 0xFFFF, 0x7FFF, 0xFFFFFFFE} {
+			for _, v := range []string{"far-first", "far-middle", "far-unread", "unordered"} {
+				if v == "unordered" && !il {
+					continue
+				}
+				j.Explore(fmt.Sprintf("HS/il%v/start%d/%s", il, start, v), halfSpaceScenario(il, start, v), Budget{}, nil)
+			}
+		}
+	}
 	bases := e2Bases()
 	// size of the alphabets (state independent count): build once against a dummy
 	dummy := &scripted{ssn: map[uint16]uint16{}, mid: map[uint16]uint32{}, tsn0: 5, aTSN0: 9}
@@ -928,6 +938,118 @@ func ackTimerRaceScenario(il bool, what string) *Scenario {
 				}
 			}
 			m.Observe("%s", what)
+			c03Teardown(m, p)
+		},
+		Final: func(m *Sim, x *Exec) { generalVerdicts(m, x, true) },
+	}
+}
+
+// halfSpaceScenario: a chunk whose sequence number is exactly half the number space away from the
+// reader's cursor has no order against the messages the reader waits for.  Whatever the endpoint
+// does with it, the messages at the cursor (sent before or after it) are still handed to the reader.
+//
+//	far-first:  far, m0, m1        far-middle: m1, far, m0
+//	unordered:  (I-DATA) an unordered message identifier is skipped by an I-FORWARD-TSN; a new
+//	            unordered message exactly 2^31 after it is a new message and is delivered
+func halfSpaceScenario(il bool, start uint32, variant string) *Scenario {
+	return &Scenario{
+		Name:    "half-space",
+		Horizon: 60 * time.Second,
+		Setup:   func(m *Sim) { m.W.delay = [2]time.Duration{time.Millisecond, time.Millisecond} },
+		Body: func(m *Sim) {
+			cfg := epCfg{NoInterleave: !il, MTU: 1191, RTOMax: 4000, InitTSN: 0xFFFFFFF5}
+			p := newScripted(m, cfg, il, false)
+			if !p.connectClient() {
+				m.Failf("e2.base", "handshake with the scripted peer failed")
+				c03Teardown(m, p)
+				return
+			}
+			p.a = m.As[0]
+			var st *Stream
+			if variant == "far-unread" {
+				// no reader yet: what arrives stays queued
+				st, _ = p.a.OpenStream(1, PayloadTypeWebRTCBinary)
+				if st != nil {
+					m.streamsSeen = append(m.streamsSeen, st)
+					p.readMu[1] = &[]rmsg{}
+				}
+			} else {
+				st = p.startReader(1)
+			}
+			if st == nil {
+				m.Failf("e2.base", "could not open stream 1")
+				c03Teardown(m, p)
+				return
+			}
+			st.lock.Lock()
+			st.reassemblyQueue.nextSSN = uint16(start)
+			st.reassemblyQueue.nextMID = start
+			st.lock.Unlock()
+			half := start + 1<<15
+			if il {
+				half = start + 1<<31
+			}
+			t := p.tsn
+			var want []string
+			switch variant {
+			case "far-first", "far-middle":
+				far := p.pkt(p.dataChunk(t+2, 1, half, 0, 53, 3, []byte("half-space-ahead"), 0))
+				m0 := p.pkt(p.dataChunk(t, 1, start, 0, 53, 3, []byte("at-the-cursor"), 0))
+				m1 := p.pkt(p.dataChunk(t+1, 1, start+1, 0, 53, 3, []byte("behind-it"), 0))
+				if variant == "far-first" {
+					p.inject(far)
+					p.inject(m0)
+					p.inject(m1)
+				} else {
+					p.inject(m1)
+					p.inject(far)
+					p.inject(m0)
+				}
+				want = []string{"at-the-cursor", "behind-it"}
+			case "far-unread":
+				// m0 is complete and unread when the first fragment of the far message arrives, m1
+				// follows; the application reads afterwards
+				p.inject(p.pkt(p.dataChunk(t, 1, start, 0, 53, 3, []byte("at-the-cursor"), 0)))
+				p.inject(p.pkt(p.dataChunk(t+1, 1, half, 0, 53, 2, []byte("half-space-ahead"), 0)))
+				p.inject(p.pkt(p.dataChunk(t+2, 1, start+1, 0, 53, 3, []byte("behind-it"), 0)))
+				want = []string{"at-the-cursor", "behind-it"}
+				buf := make([]byte, 2000)
+				for i := 0; i < 4 && st.reassemblyQueue.isReadable(); i++ {
+					n, ppi, err := st.ReadSCTP(buf)
+					if err != nil {
+						break
+					}
+					m.mu.Lock()
+					*p.readMu[1] = append(*p.readMu[1], rmsg{Data: string(buf[:n]), PPI: ppi})
+					m.mu.Unlock()
+				}
+			case "unordered":
+				// TSN t is abandoned by the peer: unordered message `start` of stream 1 is skipped
+				p.inject(p.pkt(chunkBytes(wIFWDTSN, 0, wIFwdVal(t, []wFwdStream{{SID: 1, MID: start, Unordered: true}}))))
+				p.inject(p.pkt(p.dataChunk(t+1, 1, start+1<<31, 0, 53, 7, []byte("new-unordered"), 0)))
+				want = []string{"new-unordered"}
+			}
+			ok := m.WaitUntil("half-space-read", 5*time.Second, func() bool {
+				m.mu.Lock()
+				defer m.mu.Unlock()
+				k := 0
+				for _, r := range *p.readMu[1] {
+					if k < len(want) && r.Data == want[k] {
+						k++
+					}
+				}
+				return k == len(want)
+			})
+			if !ok {
+				m.mu.Lock()
+				var got []string
+				for _, r := range *p.readMu[1] {
+					got = append(got, r.Data)
+				}
+				m.mu.Unlock()
+				m.Failf("hostile.destroyed", "%s (cursor %d, interleaving %v): the messages %q were sent by the peer and acknowledged up to TSN %d (sent: %d..%d), but the reader of stream 1 got %q: a chunk exactly half the number space away from the cursor has taken the stream apart", variant, start, il, want, p.a.peerLastTSN(), t, t+2, got)
+			}
+			m.Observe("ok=%v cum=%d", ok, p.a.peerLastTSN()-t)
 			c03Teardown(m, p)
 		},
 		Final: func(m *Sim, x *Exec) { generalVerdicts(m, x, true) },
